@@ -4,3 +4,4 @@ pub mod engine;
 pub mod gen;
 pub mod model;
 pub mod props;
+pub mod prover;
